@@ -373,6 +373,8 @@ var targetedC20 = []struct {
 }{
 	{"symnum-builtins", false, []string{"(symnum %car)", "(symnum %hset)", "(< (symnum %car) (symnum %cdr))"}},
 	{"pretty-toggle", false, []string{"(str (concat [1 2] [3 4]))", "(pretty true)", "(str (concat [1 2] [3 4]))", "(str (hash a: [1 2] b: (concat [1] [2])))", "(pretty false)", "(str (concat [5] [6]))"}},
+	{"pretty-left-on", false, []string{"(str (concat [1 2] [3 4]))", "(str [1 [2 3]])", "(str (hash a: 1))", "(pretty true)", "(str (concat [1 2] [3 4]))"}},
+	{"settings-left-on", false, []string{"(str (concat [1] [2]))", "(echo false)", "(pretty true)", "(str (list 1 [2] (hash a: (concat [3] [4]))))"}},
 	{"deref-copy-order", false, []string{"(struct Rc [(field f1: int64 e:0) (field f2: int64 e:1) (field f3: int64 e:2) (field f4: int64 e:3) (field f5: int64 e:4) (field f6: int64 e:5) (field f7: int64 e:6) (field f8: int64 e:7) (field f9: int64 e:8)])", "(def ra (Rc f1: 1 f2: 2 f3: 3 f4: 4 f5: 5 f6: 6 f7: 7 f8: 8 f9: 9))", "(def rb (Rc f1: 0))", "(def pb (& rb))", "(derefSet pb ra)", "(str rb)", "(keys rb)", "(json rb)"}},
 	{"symnum-types", false, []string{"(symnum %rune)", "(symnum %int64)", "(symnum %string)", "(< %int64 %string)", "(< %rune %float64)", "(symnum %uint8)", "(symnum %error)"}},
 	{"togo-unknown-fields", true, []string{"(def wbad (weather type: \"x\"))", "(hset wbad nosuch1: 1)", "(hset wbad nosuch2: 2)", "(hset wbad nosuch3: 3)", "(hset wbad nosuch4: 4)", "(togo wbad)", "(str wbad)", "(json wbad)"}},
